@@ -55,6 +55,14 @@ func init() {
 		QuickRuns: 1200, QuickSecs: 60, ThorRuns: 20000, ThorSecs: 600, Batch: 35,
 	})
 	Register(&Check{
+		ID: "C06", Engine: "netsim",
+		Real:      []string{"threshold.Scheme (membership translation, DKG/signing initialisation, p2p addressing)", "disc.Member", "disc.SilentSynchronizer", "rbc.Receiver", "msg.Box"},
+		Stub:      append([]string{"MPC backend (scripted; records Init/OnMsg arguments and every emitted message)"}, e1Stub...),
+		Rule:      "one case = one seeded membership map over 16-bit ids (identity / injective non-identity / several nodes per party, any replica participating, optionally two replicas of one party selected) x KeyGen and/or Sign x schedule; distinct = distinct (map, schedule fingerprint); non-trivial = the map is not the identity",
+		Assume:    []string{"links are reliable and FIFO per direction", "the backend learns its own party id from the application (the factory is handed the node id)"},
+		QuickRuns: 2500, QuickSecs: 45, ThorRuns: 40000, ThorSecs: 600,
+	})
+	Register(&Check{
 		ID: "C04", Engine: "netsim",
 		Real:      []string{"threshold.Scheme via LoudScheme/SilentScheme", "disc.Member", "disc.SilentSynchronizer", "rbc.Receiver", "msg.Box"},
 		Stub:      append([]string{"MPC backend (scripted R-round protocol, one round number per broadcast)"}, e1Stub...),
